@@ -34,7 +34,11 @@ Definition mem_name (n : name) (l : list name) : bool := existsb (name_eqb n) l.
 (* ------------------------------------------------------------------ the world: files and what importing them does *)
 
 (* what a module body does to sys.path when it runs *)
-Inductive effect := EIns0 (p : path) | EApp (p : path) | EClear | ERebind (l : list path).
+Inductive effect :=
+| EIns0 (p : path) | EApp (p : path) | EClear | ERebind (l : list path)
+| EScope (paths : list path) (inner : list effect).
+(* EScope: the body itself enters `with sys_path(paths...):` -- directly, or by calling dynamic_import(name, paths), inspect(...),
+   load(..., force_inspection=True) at import time -- and does [inner] to sys.path inside: scopes nest like a stack *)
 
 Record behaviour := mkBeh {
   b_home : option path;        (* top-level modules: the sys.path entry that makes them importable; None: found through the parent / built in *)
@@ -105,12 +109,32 @@ Definition rebind (l : list path) (s : st) : st := mkSt (next s) (S (next s)) (u
 Definition mutate (f : list path -> list path) (s : st) : st :=
   mkSt (cur s) (next s) (upd (heap s) (cur s) (f (heap s (cur s)))) (mods s) (log s).
 
-Definition apply_effect (e : effect) (s : st) : st :=
+(* importer.sys_path: the binding that was there on entry is kept in the frame of the context manager (a local variable) *)
+Definition is_nil {A} (l : list A) : bool := match l with [] => true | _ => false end.
+
+Definition with_sys_path {A} (paths : list path) (body : st -> (exn + A) * st) (s : st) : (exn + A) * st :=
+  if is_nil paths && sys_path_noop_when_empty then body s
+  else
+    let old := cur s in
+    let (r, s2) := body (rebind paths s) in
+    match r with
+    | inr _ => (r, set_cur old s2)
+    | inl _ => (r, if sys_path_restores_on_exception then set_cur old s2 else s2)
+    end.
+
+(* a `with sys_path(paths...):` block around something that only changes the interpreter state *)
+Definition scoped (paths : list path) (body : st -> st) (s : st) : st :=
+  snd (with_sys_path paths (fun s0 => (inr tt : exn + unit, body s0)) s).
+
+Fixpoint apply_effect (e : effect) (s : st) {struct e} : st :=
   match e with
   | EIns0 p => mutate (fun l => p :: l) s
   | EApp p => mutate (fun l => l ++ [p]) s
   | EClear => mutate (fun _ => []) s
   | ERebind l => rebind l s
+  | EScope paths inner =>
+      scoped paths (fun s0 => (fix go (es : list effect) (s1 : st) {struct es} : st :=
+                                 match es with [] => s1 | x :: r => go r (apply_effect x s1) end) inner s0) s
   end.
 Definition apply_effects (es : list effect) (s : st) : st := fold_left (fun s e => apply_effect e s) es s.
 
@@ -144,19 +168,7 @@ Fixpoint import_prefixes (w : world) (pre : name) (rest : list string) (s : st) 
 
 Definition import_module (w : world) (n : name) (s : st) : option exn * st := import_prefixes w [] n s.
 
-(* ------------------------------------------------------------------ importer.sys_path, importer.dynamic_import *)
-
-Definition is_nil {A} (l : list A) : bool := match l with [] => true | _ => false end.
-
-Definition with_sys_path {A} (paths : list path) (body : st -> (exn + A) * st) (s : st) : (exn + A) * st :=
-  if is_nil paths && sys_path_noop_when_empty then body s
-  else
-    let old := cur s in
-    let (r, s2) := body (rebind paths s) in
-    match r with
-    | inr _ => (r, set_cur old s2)
-    | inl _ => (r, if sys_path_restores_on_exception then set_cur old s2 else s2)
-    end.
+(* ------------------------------------------------------------------ importer.dynamic_import (importer.sys_path: above) *)
 
 (* the while loop: try the whole dotted path, then drop trailing parts one at a time *)
 Fixpoint dyn_attempts (w : world) (rev_parts : list string) (objparts : list string) (s : st)
@@ -375,6 +387,22 @@ Definition session (w : world) (allow force store submodules : bool) (search : l
       end
   end.
 
+(* a history of calls on ONE loader: load(...), resolve_aliases(...), load(...) ...  The options are the loader's, fixed when
+   it is built: no method of the loader assigns to them (checked by the translator, observed after every call), so every
+   step runs with the same allow / force / store and the same finder.  [catch]: what the caller swallows between calls. *)
+Record hstep := mkStep { hs_submodules : bool; hs_root : option rtree; hs_later : list rtree }.
+
+Fixpoint run_history (w : world) (allow force store : bool) (search : list path) (catch : list string) (steps : list hstep) (s : st)
+  : option exn * st :=
+  match steps with
+  | [] => (None, s)
+  | h :: r =>
+      match session w allow force store (hs_submodules h) search (hs_root h) (hs_later h) s with
+      | (None, s1) => run_history w allow force store search catch r s1
+      | (Some x, s1) => if caught_by catch x then run_history w allow force store search catch r s1 else (Some x, s1)
+      end
+  end.
+
 (* ------------------------------------------------------------------ the finder's search paths, the public entry points *)
 
 (* ModuleFinder.__init__ / append_search_path: `search_paths or sys.path`, first occurrence of each path kept
@@ -434,14 +462,28 @@ Definition dec_exn (x : sexp) : option exn :=
   | _ => None
   end.
 
-Definition dec_effect (x : sexp) : option effect :=
-  match x with
-  | SList [SStr "ins0"; p] => do p' <- dec_path p; Some (EIns0 p')
-  | SList [SStr "app"; p] => do p' <- dec_path p; Some (EApp p')
-  | SList [SStr "clear"] => Some EClear
-  | SList [SStr "rebind"; l] => do l' <- as_list_of dec_path l; Some (ERebind l')
-  | _ => None
+Fixpoint dec_effect_fuel (fuel : nat) (x : sexp) : option effect :=
+  match fuel with
+  | 0 => None
+  | S k =>
+      match x with
+      | SList [SStr "ins0"; p] => do p' <- dec_path p; Some (EIns0 p')
+      | SList [SStr "app"; p] => do p' <- dec_path p; Some (EApp p')
+      | SList [SStr "clear"] => Some EClear
+      | SList [SStr "rebind"; l] => do l' <- as_list_of dec_path l; Some (ERebind l')
+      | SList [SStr "scope"; ps; SList inner] =>
+          do ps' <- as_list_of dec_path ps;
+          do inner' <- (fix go (l : list sexp) : option (list effect) :=
+                          match l with
+                          | [] => Some []
+                          | y :: r => do y' <- dec_effect_fuel k y; do r' <- go r; Some (y' :: r')
+                          end) inner;
+          Some (EScope ps' inner')
+      | _ => None
+      end
   end.
+(* scopes generated by the harness nest a few levels at most *)
+Definition dec_effect : sexp -> option effect := dec_effect_fuel 32.
 
 Definition dec_vfault (x : sexp) : option vfault :=
   match x with SStr "syntax" => Some VSyntax | SStr "unicode" => Some VUnicode | _ => None end.
@@ -551,8 +593,22 @@ Definition dec_phase (x : sexp) : option phase :=
   | _ => None
   end.
 
+Definition dec_hstep (x : sexp) : option hstep :=
+  match x with
+  | SList [sm; root; later] => do sm' <- as_bool sm; do rt <- as_opt dec_rtree root; do lt <- as_list_of dec_rtree later; Some (mkStep sm' rt lt)
+  | _ => None
+  end.
+
 Definition run_C15 (x : sexp) : sexp :=
   match x with
+  | SList [SStr "history"; allow; force; store; given; world; steps; catch; syspath] =>
+      (* one loader, several calls *)
+      or_bad (do a <- as_bool allow; do f <- as_bool force; do st' <- as_bool store; do g <- as_list_of dec_path given;
+              do w <- dec_world world; do hs <- as_list_of dec_hstep steps; do ct <- as_list_of as_str catch;
+              do ip <- as_list_of dec_path syspath;
+              let s0 := init_state ip in
+              let (r, s) := run_history w a f st' (finder_paths g ip) ct hs s0 in
+              Some (enc_outcome ip s0 r s))
   | SList [SStr "session"; allow; force; store; submodules; search; world; root; later; syspath] =>
       or_bad (do a <- as_bool allow; do f <- as_bool force; do st' <- as_bool store; do sm <- as_bool submodules;
               do sp <- as_list_of dec_path search; do w <- dec_world world; do rt <- as_opt dec_rtree root; do lt <- as_list_of dec_rtree later;
